@@ -1,236 +1,367 @@
 /-
-Model of `Tokenize` of /repo/lang/token/token.go (C12: the Wuffs formatter re-tokenizes
-its own output), function by function.  Core Lean only.  The built-in token tables
-(`builtInsByID`, `squiggles`, `lexers`, the ID classifiers) come from
-`Gen/C12_Tokens.lean`, regenerated from the working tree on every run.
+Model of /repo/lang/token/token.go: `Tokenize`, `Map.Insert`, `Unescape` and the
+ID classifiers of /repo/lang/token/list.go.  Tables and limits come from the
+regenerated `Gen/C11_Tables.lean`.  Core Lean + Std.HashMap only.
 
-A token is (`id`, `text`, `line`).  `token.Map` interns texts: equal texts get equal IDs
-and built-in texts get their fixed ID, so `id` is the built-in ID or `nBuiltInIDs` for every
-other text (Render only ever compares IDs with built-in constants, and classifies the others
-by the first byte of their text, exactly as `IsIdent`/`IsLiteral` do).
-Not modelled: the "too many distinct tokens" error (needs more than 2^20 distinct texts).
+The main loop is well-founded recursion on `src.size - i`; every iteration must
+advance `i` (checked in the loop by `if i < j`, the impossible branch returns
+`Err.stuck`; `Props/C11.lean` proves it is never taken).
 -/
-import WuffsVerif.Gen.C12_Tokens
+import Std.Data.HashMap
+import WuffsVerif.Gen.C11_Tables
 
 namespace WuffsVerif.Token
-open WuffsVerif.Gen.C12
+open WuffsVerif.Gen.C11
 
-abbrev Bytes := List UInt8
+/-! ## character classes (token.go: alpha, alphaNumeric, …) -/
 
-structure Tok where
-  id : Nat
-  text : Bytes
-  line : Nat
-deriving DecidableEq, Repr, Inhabited
+def alpha (c : UInt8) : Bool :=
+  (65 ≤ c && c ≤ 90) || (97 ≤ c && c ≤ 122) || c == 95
 
-def maxLine : Nat := 1048575
-def maxTokenSize : Nat := 1023
-
-def strBytes (s : String) : Bytes := s.toUTF8.toList
-
-/-- built-ins as (text, id, flags) -/
-def builtinTable : List (Bytes × Nat × Nat) := builtins.map (fun e => (strBytes e.2.1, e.1, e.2.2))
-
-/-- built-ins bucketed by first byte (only a speed-up of the linear search) -/
-def builtinBuckets : Array (List (Bytes × Nat × Nat)) :=
-  builtinTable.foldl (fun a e =>
-    match e.1 with
-    | [] => a
-    | c :: _ => a.modify c.toNat (fun l => l ++ [e])) (Array.replicate 256 [])
-
-/-- `builtInsByName[text]` as (id, flags) -/
-def builtinByName (text : Bytes) : Option (Nat × Nat) :=
-  match text with
-  | [] => none
-  | c :: _ => ((builtinBuckets[c.toNat]!).find? (fun e => e.1 == text)).map (·.2)
-
-/-- flags of a built-in ID -/
-def flagsOfId (id : Nat) : Nat :=
-  match builtins.find? (fun e => e.1 == id) with
-  | some e => e.2.2
-  | none => 0
-
-def alpha (c : UInt8) : Bool := (65 ≤ c && c ≤ 90) || (97 ≤ c && c ≤ 122) || c == 95
 def numeric (c : UInt8) : Bool := 48 ≤ c && c ≤ 57
+
 def alphaNumeric (c : UInt8) : Bool := alpha c || numeric c
+
 def hexaNumericUnderscore (c : UInt8) : Bool :=
   (65 ≤ c && c ≤ 70) || (97 ≤ c && c ≤ 102) || c == 95 || numeric c
+
 def zeroOneUnderscore (c : UInt8) : Bool := c == 95 || c == 48 || c == 49
+
 def numericUnderscore (c : UInt8) : Bool := c == 95 || numeric c
 
-/-- `m.Insert(text)` + the ID's classification: (id, flags) of a word / literal text -/
-def intern (text : Bytes) : Nat × Nat :=
-  match builtinByName text with
-  | some r => r
-  | none =>
-    match text with
-    | c :: _ => (nBuiltInIDs, if alpha c then 16 + 64 else 32 + 64)  -- IsIdent / IsLiteral; both implicit-semicolon
-    | [] => (0, 0)
-
-def hasFlag (fl bit : Nat) : Bool := (fl / bit) % 2 == 1
-
-/-- `ID.IsImplicitSemicolon` of a token -/
-def Tok.implicitSemicolon (t : Tok) : Bool :=
-  if t.id < nBuiltInIDs then hasFlag (flagsOfId t.id) 64 else true
-
-/-- `unhex` -/
+/-- token.go `unhex`: `none` is Go's -1. -/
 def unhex (c : UInt8) : Option Nat :=
   if 65 ≤ c && c ≤ 70 then some (c.toNat - 55)
   else if 97 ≤ c && c ≤ 102 then some (c.toNat - 87)
   else if 48 ≤ c && c ≤ 57 then some (c.toNat - 48)
   else none
 
-/-- `backslashes[c] != 0` -/
-def isBackslashEscape (c : UInt8) : Bool :=
-  c == 34 || c == 39 || c == 47 || c == 48 || c == 63 || c == 92 || c == 97 || c == 98 ||
-  c == 101 || c == 102 || c == 110 || c == 114 || c == 116 || c == 118
+/-! ## tables -/
 
-/-- `utf8.ValidRune` -/
+/-- Latin-1 view of a byte string: token spellings are arbitrary bytes, map keys are `String`s. -/
+def latin1 (bs : List UInt8) : String := String.ofList (bs.map (fun b => Char.ofNat b.toNat))
+
+def builtInsByName : Std.HashMap String Nat :=
+  builtIns.foldl (fun m (p : Nat × String) => m.insert p.2 p.1) {}
+
+def builtInsByIDArr : Array String :=
+  builtIns.foldl (fun a (p : Nat × String) => a.set! p.1 p.2) (Array.replicate nBuiltInIDs "")
+
+def squigglesArr : Array Nat :=
+  squiggles.foldl (fun a (p : Nat × Nat) => a.set! p.1 p.2) (Array.replicate 256 0)
+
+def lexersArr : Array (List (List UInt8 × Nat)) :=
+  lexers.foldl (fun a (p : Nat × List (List Nat × Nat)) =>
+    a.set! p.1 (p.2.map (fun q => (q.1.map UInt8.ofNat, q.2)))) (Array.replicate 256 [])
+
+def backslashesArr : Array Nat :=
+  backslashes.foldl (fun a (p : Nat × Nat) => a.set! p.1 p.2) (Array.replicate 256 0)
+
+def formsArr (l : List (Nat × Nat)) : Array Nat :=
+  l.foldl (fun a (p : Nat × Nat) => a.set! p.1 p.2) (Array.replicate (maxOp + 1) 0)
+
+def unaryFormsArr : Array Nat := formsArr unaryForms
+def binaryFormsArr : Array Nat := formsArr binaryForms
+def associativeFormsArr : Array Nat := formsArr associativeForms
+
+/-! ## Map (token.go `Map`) -/
+
+structure TMap where
+  byName : Std.HashMap String Nat := {}
+  byID : Array String := #[]
+
+inductive Err where
+  | lines | backslash | unterminated | control | strlong | sqinvalid | sqmulti
+  | identlong | octal | constlong | numeric | unrecognized | toomany
+  | stuck   -- not a Go error: the model's loop failed to advance (proved impossible)
+  deriving Repr, DecidableEq, Inhabited
+
+/-- `Map.Insert` for a non-empty name. -/
+def TMap.insert (m : TMap) (name : String) : Except Err (Nat × TMap) :=
+  match builtInsByName[name]? with
+  | some id => .ok (id, m)
+  | none =>
+    match m.byName[name]? with
+    | some id => .ok (id, m)
+    | none =>
+      let id := nBuiltInIDs + m.byID.size
+      if id > maxID then .error .toomany
+      else .ok (id, { byName := m.byName.insert name id, byID := m.byID.push name })
+
+/-- `Map.ByID`. -/
+def TMap.byIDStr (m : TMap) (x : Nat) : String :=
+  if x < nBuiltInIDs then builtInsByIDArr[x]!
+  else (m.byID[x - nBuiltInIDs]?).getD ""
+
+/-! ## ID classifiers (list.go) -/
+
+def firstByte (s : String) : Nat := (s.toList.head?.map Char.toNat).getD 0
+
+def isAlphaNat (c : Nat) : Bool := (65 ≤ c && c ≤ 90) || (97 ≤ c && c ≤ 122) || c == 95
+
+def isLiteral (m : TMap) (x : Nat) : Bool :=
+  if x < nBuiltInIDs then minBuiltInLiteral ≤ x && x ≤ maxBuiltInLiteral
+  else let s := m.byIDStr x; s != "" && !isAlphaNat (firstByte s)
+
+def isNumLiteral (m : TMap) (x : Nat) : Bool :=
+  if x < nBuiltInIDs then minBuiltInNumLiteral ≤ x && x ≤ maxBuiltInNumLiteral
+  else let s := m.byIDStr x; s != "" && (48 ≤ firstByte s && firstByte s ≤ 57)
+
+def isDQStrLiteral (m : TMap) (x : Nat) : Bool :=
+  if x < nBuiltInIDs then false else firstByte (m.byIDStr x) == 34
+
+def isSQStrLiteral (m : TMap) (x : Nat) : Bool :=
+  if x < nBuiltInIDs then false else firstByte (m.byIDStr x) == 39
+
+def isIdent (m : TMap) (x : Nat) : Bool :=
+  if x < nBuiltInIDs then minBuiltInIdent ≤ x && x ≤ maxBuiltInIdent
+  else let s := m.byIDStr x; s != "" && isAlphaNat (firstByte s)
+
+def isClose (x : Nat) : Bool := minClose ≤ x && x ≤ maxClose
+def isKeyword (x : Nat) : Bool := minKeyword ≤ x && x ≤ maxKeyword
+def isAssign (x : Nat) : Bool := minAssign ≤ x && x ≤ maxAssign
+def isCannotAssignTo (x : Nat) : Bool := minCannotAssignTo ≤ x && x ≤ maxCannotAssignTo
+def isNumType (x : Nat) : Bool := minNumType ≤ x && x ≤ maxNumType
+
+def isImplicitSemicolon (m : TMap) (x : Nat) : Bool :=
+  isClose x || isKeyword x || isIdent m x || isLiteral m x
+
+def unaryForm (x : Nat) : Nat := unaryFormsArr.getD x 0
+def binaryForm (x : Nat) : Nat := binaryFormsArr.getD x 0
+def associativeForm (x : Nat) : Nat := associativeFormsArr.getD x 0
+def isUnaryOp (x : Nat) : Bool := minOp ≤ x && x ≤ maxOp && unaryForm x != 0
+def isBinaryOp (x : Nat) : Bool := minOp ≤ x && x ≤ maxOp && binaryForm x != 0
+def isAssociativeOp (x : Nat) : Bool := minOp ≤ x && x ≤ maxOp && associativeForm x != 0
+
+/-! ## Unescape (only what Tokenize needs: ok? and the unescaped length) -/
+
 def validRune (u : Nat) : Bool := u < 0xD800 || (0xE000 ≤ u && u ≤ 0x10FFFF)
 
-/-- length of `utf8.EncodeRune` -/
 def runeLen (u : Nat) : Nat := if u < 0x80 then 1 else if u < 0x800 then 2 else if u < 0x10000 then 3 else 4
 
-def hexValue : Bytes → Option Nat
-  | [] => some 0
-  | c :: cs => do
-    let d ← unhex c
-    let r ← hexValue cs
-    pure (d * 16 ^ cs.length + r)
+/-- Value of `n` hex digits starting at `s[k]` (big-endian); `none` if any is not a hex digit. -/
+def hexValue (s : Array UInt8) (k n : Nat) : Option Nat :=
+  (List.range n).foldl (fun acc d =>
+    match acc, unhex (s.getD (k + d) 0) with
+    | some v, some h => some (v * 16 + h)
+    | _, _ => none) (some 0)
 
-/-- The second loop of `Unescape` on the text between the quotes: the LENGTH of the
-unescaped string, or `none` if it is invalid. -/
-def unescapedLen : Nat → Bytes → Option Nat
-  | 0, _ => none
-  | _ + 1, [] => some 0
-  | f + 1, c :: cs =>
-    if c != 92 then (unescapedLen f cs).map (· + 1)
-    else match cs with
-      | [] => none                                  -- `i >= len(s)-1`: falls through to `return "", false`
-      | e :: rest =>
-        if isBackslashEscape e then (unescapedLen f rest).map (· + 1)
-        else if e == 120 && rest.length ≥ 2 then    -- `\x`, `i < len(s)-3`
-          match hexValue (rest.take 2) with
-          | some _ => (unescapedLen f (rest.drop 2)).map (· + 1)
-          | none => none
-        else if e == 117 && rest.length ≥ 4 then    -- `\u`, `i < len(s)-5`
-          match hexValue (rest.take 4) with
-          | some u => if validRune u then (unescapedLen f (rest.drop 4)).map (· + runeLen u) else none
-          | none => none
-        else if e == 85 && rest.length ≥ 8 then     -- `\U`, `i < len(s)-9`
-          match hexValue (rest.take 8) with
-          | some u => if validRune u then (unescapedLen f (rest.drop 8)).map (· + runeLen u) else none
-          | none => none
-        else none
-
-/-- `Unescape(s)` for a `'`-string token text: `some (length of the unescaped string)` or `none`. -/
-def unescapeSQ (s : Bytes) : Option Nat :=
-  if s.length < 2 then none else
-  let n := s.length
-  let body? : Option Bytes :=
-    if s.getLast? == some 39 then some ((s.drop 1).take (n - 2))
-    else if n ≥ 4 && s[n - 3]? == some 39 && (s[n - 2]? == some 98 || s[n - 2]? == some 108) && s[n - 1]? == some 101 then
-      some ((s.drop 1).take (n - 4))
-    else none
-  match body? with
-  | none => none
-  | some body => unescapedLen (body.length + 1) body
-
-/-- the string loop: scan from just after the opening quote; returns the consumed bytes
-(including the closing quote if there is one) and the rest, or `none` on an error. -/
-def scanString (quote : UInt8) : Bytes → Option (Bytes × Bytes)
-  | [] => some ([], [])
-  | c :: cs =>
-    if c == quote then some ([c], cs)
-    else if c == 92 then
-      if quote == 34 then none else (scanString quote cs).map (fun r => (c :: r.1, r.2))
-    else if c == 10 then none
-    else if c < 32 then none
-    else (scanString quote cs).map (fun r => (c :: r.1, r.2))
-
-/-- `checkNumericUnderscores` -/
-def checkNumericUnderscores (a : Bytes) : Bool :=
-  let rec go : Bool → Bytes → Bool
-    | prev, [] => !prev
-    | prev, c :: cs => if prev && c == 95 then false else go (c == 95) cs
-  go false a
-
-/-- `squiggles[c]` -/
-def squiggleOf (c : UInt8) : Option Nat := (squiggles.find? (fun e => e.1 == c.toNat)).map (·.2)
-
-/-- `lexers[c]` with byte-list suffixes -/
-def lexersOf (c : UInt8) : List (Bytes × Nat) :=
-  match lexers.find? (fun e => e.1 == c.toNat) with
-  | some e => e.2.map (fun x => (strBytes x.1, x.2))
-  | none => []
-
-/-- the squiggle / lexers part of `Tokenize` at `c :: rest`: (id, text length) -/
-def lexPunct (c : UInt8) (rest : Bytes) : Option (Nat × Nat) :=
-  match squiggleOf c with
-  | some id => some (id, 1)
-  | none => ((lexersOf c).find? (fun x => x.1.isPrefixOf rest)).map (fun x => (x.2, x.1.length + 1))
-
-/-- set `comments[line]` (padding with "" as `for uint32(len(comments)) < line`) -/
-def setComment (comments : Array Bytes) (line : Nat) (text : Bytes) : Array Bytes :=
-  (comments ++ Array.replicate (line - comments.size) []).push text
-
-/-- `Tokenize`: tokens (reversed accumulator), comments by line; `none` = any error. -/
-def tokenizeLoop : Nat → Bytes → Nat → List Tok → Array Bytes → Option (List Tok × Array Bytes)
-  | 0, _, _, _, _ => none
-  | _ + 1, [], _, toks, comments => some (toks.reverse, comments)
-  | f + 1, c :: rest, line, toks, comments =>
-    if c ≤ 32 then
-      if c == 10 then
-        let toks' := match toks with
-          | t :: _ => if t.implicitSemicolon then ⟨idSemicolon, [59], line⟩ :: toks else toks
-          | [] => toks
-        if line == maxLine then none else tokenizeLoop f rest (line + 1) toks' comments
-      else tokenizeLoop f rest line toks comments
-    else if c == 34 || c == 39 then
-      match scanString c rest with
-      | none => none
-      | some (body, after) =>
-        let hasEndian := c == 39 && after.length > 2 &&
-          (after.head? == some 98 || after.head? == some 108) && after[1]? == some 101
-        let text := c :: body ++ (if hasEndian then after.take 2 else [])
-        let after' := if hasEndian then after.drop 2 else after
-        if text.length > maxTokenSize then none
-        else if c == 39 && (match unescapeSQ text with
-            | none => true
-            | some n => n > 1 && !hasEndian) then none
-        else
-          tokenizeLoop f after' line (⟨(intern text).1, text, line⟩ :: toks) comments
-    else if alpha c then
-      let word := c :: rest.takeWhile alphaNumeric
-      if word.length > maxTokenSize then none
-      else tokenizeLoop f (rest.dropWhile alphaNumeric) line (⟨(intern word).1, word, line⟩ :: toks) comments
-    else if numeric c then
-      let pre? : Option (Bytes × (UInt8 → Bool)) :=
-        match rest with
-        | [] => some ([], numericUnderscore)
-        | nx :: _ =>
-          if c == 48 && (nx == 120 || nx == 88) then some ([nx], hexaNumericUnderscore)
-          else if c == 48 && (nx == 98 || nx == 66) then some ([nx], zeroOneUnderscore)
-          else if c == 48 && numeric nx then none
-          else some ([], numericUnderscore)
-      match pre? with
-      | none => none
-      | some (pre, isDigit) =>
-        let rest' := rest.drop pre.length
-        let text := c :: pre ++ rest'.takeWhile isDigit
-        if text.length > maxTokenSize then none
-        else if !checkNumericUnderscores text then none
-        else tokenizeLoop f (rest'.dropWhile isDigit) line (⟨(intern text).1, text, line⟩ :: toks) comments
-    else if c == 47 && rest.head? == some 47 then
-      let com := c :: rest.takeWhile (· != 10)
-      tokenizeLoop f (rest.dropWhile (· != 10)) line toks (setComment comments line com)
+/-- The second loop of `Unescape` over the quote-stripped body `s`, from index `i`, having
+produced `len` bytes so far.  `none` = `("", false)`. -/
+def unescapeBody (s : Array UInt8) (i len : Nat) : Option Nat :=
+  if h : i < s.size then
+    if s[i] != 92 then unescapeBody s (i + 1) (len + 1)
+    else if i + 1 ≥ s.size then none
     else
-      match lexPunct c rest with
-      | some (id, n) => tokenizeLoop f (rest.drop (n - 1)) line (⟨id, (c :: rest).take n, line⟩ :: toks) comments
-      | none => none
+      let c := s.getD (i + 1) 0
+      if backslashesArr.getD c.toNat 0 != 0 then unescapeBody s (i + 2) (len + 1)
+      else if c == 120 && i + 3 < s.size then       -- 'x'
+        match hexValue s (i + 2) 2 with
+        | some _ => unescapeBody s (i + 4) (len + 1)
+        | none => none
+      else if c == 117 && i + 5 < s.size then       -- 'u'
+        match hexValue s (i + 2) 4 with
+        | some u => if validRune u then unescapeBody s (i + 6) (len + runeLen u) else none
+        | none => none
+      else if c == 85 && i + 9 < s.size then        -- 'U'
+        match hexValue s (i + 2) 8 with
+        | some u => if u < 2147483648 && validRune u then unescapeBody s (i + 10) (len + runeLen u) else none
+        | none => none
+      else none
+  else some len
+termination_by s.size - i
+decreasing_by all_goals omega
 
-/-- `Tokenize(m, filename, src)` -/
-def tokenize (src : Bytes) : Option (List Tok × Array Bytes) :=
-  tokenizeLoop (src.length + 1) src 1 [] #[]
+/-- `Unescape(s)`: `some n` = ok with an unescaped string of `n` bytes. -/
+def unescapeLen (s : Array UInt8) : Option Nat :=
+  let n := s.size
+  if n < 2 then none
+  else
+    let body : Option (Array UInt8) :=
+      if s[0]! == 34 then
+        (if s[n - 1]! == 34 then some (s.extract 1 (n - 1)) else none)
+      else if s[0]! == 39 then
+        (if s[n - 1]! == 39 then some (s.extract 1 (n - 1))
+         else if n ≥ 4 && s[n - 3]! == 39 && (s[n - 2]! == 98 || s[n - 2]! == 108) && s[n - 1]! == 101
+           then some (s.extract 1 (n - 3))
+         else none)
+      else none
+    match body with
+    | none => none
+    | some b => if b.all (· != 92) then some b.size else unescapeBody b 0 0
+
+/-! ## Tokenize -/
+
+structure Tok where
+  id : Nat
+  line : Nat
+  deriving Repr, DecidableEq, Inhabited
+
+structure St where
+  m : TMap := {}
+  toks : Array Tok := #[]
+  comments : Array String := #[]
+  line : Nat := 1
+  iters : Nat := 0   -- ghost: number of loop iterations so far (not in the Go code)
+
+/-- First `j ≥ k` with `j = src.size` or `¬ p src[j]`, but error position when `j - i` reaches
+`maxTokenSize` while `p src[j]` still holds (the Go loops' "too long" check). -/
+def scanWhile (src : ByteArray) (p : UInt8 → Bool) (i : Nat) (j : Nat) : Option Nat :=
+  if h : j < src.size then
+    if p src[j] then
+      if j - i == maxTokenSize then none else scanWhile src p i (j + 1)
+    else some j
+  else some j
+termination_by src.size - j
+
+/-- String body scan: returns the index after the closing quote (or `src.size`). -/
+def scanString (src : ByteArray) (quote : UInt8) (j : Nat) : Except Err Nat :=
+  if h : j < src.size then
+    let c := src[j]
+    if c == quote then .ok (j + 1)
+    else if c == 92 then (if quote == 34 then .error .backslash else scanString src quote (j + 1))
+    else if c == 10 then .error .unterminated
+    else if c < 32 then .error .control
+    else scanString src quote (j + 1)
+  else .ok j
+termination_by src.size - j
+
+def scanToNewline (src : ByteArray) (j : Nat) : Nat :=
+  if h : j < src.size then
+    if src[j] == 10 then j else scanToNewline src (j + 1)
+  else j
+termination_by src.size - j
+
+def hasPrefixAt (src : ByteArray) (k : Nat) : List UInt8 → Bool
+  | [] => true
+  | b :: rest => k < src.size && src.get! k == b && hasPrefixAt src (k + 1) rest
+
+/-- `checkNumericUnderscores`. -/
+def checkNumericUnderscores (bs : List UInt8) : Bool :=
+  let r := bs.foldl (fun (acc : Bool × Bool) c =>
+    let cur := c == 95
+    (acc.1 && !(acc.2 && cur), cur)) (true, false)
+  r.1 && !r.2
+
+/-- `src[i:j]` as a byte list (all indices are in range whenever the tokenizer calls it). -/
+def slice (src : ByteArray) (i j : Nat) : List UInt8 :=
+  (List.range (j - i)).map (fun k => src.get! (i + k))
+
+def padComments (cs : Array String) (line : Nat) : Array String :=
+  if cs.size < line then cs ++ Array.replicate (line - cs.size) "" else cs
+
+/-- `m.Insert(src[i:j])`, then `tokens = append(tokens, Token{id, line})`, `i = j`. -/
+def emit (src : ByteArray) (i j : Nat) (st : St) : Except Err (Nat × St) :=
+  match st.m.insert (latin1 (slice src i j)) with
+  | .error e => .error e
+  | .ok (id, m) => .ok (j, { st with m := m, toks := st.toks.push ⟨id, st.line⟩ })
+
+/-- `if len(tokens) > 0 && tokens[len(tokens)-1].ID.IsImplicitSemicolon(m) { append ";" }`. -/
+def withImplicitSemicolon (st : St) : Array Tok :=
+  match st.toks.back? with
+  | some t => if isImplicitSemicolon st.m t.id then st.toks.push ⟨IDSemicolon, st.line⟩ else st.toks
+  | none => st.toks
+
+/-- `c <= ' '`: white space; a newline may add an implicit semicolon and bumps the line. -/
+def stepSpace (c : UInt8) (i : Nat) (st : St) : Except Err (Nat × St) :=
+  if c == 10 then
+    if st.line == maxLine then .error .lines
+    else .ok (i + 1, { st with toks := withImplicitSemicolon st, line := st.line + 1 })
+  else .ok (i + 1, st)
+
+/-- `hasEndian`: a `'…'` literal directly followed by `be` / `le` (and at least one more byte). -/
+def hasEndianAt (src : ByteArray) (quote : UInt8) (j0 : Nat) : Bool :=
+  quote == 39 && j0 + 2 < src.size &&
+    (src.get! j0 == 98 || src.get! j0 == 108) && src.get! (j0 + 1) == 101
+
+def stringEnd (src : ByteArray) (quote : UInt8) (j0 : Nat) : Nat :=
+  if hasEndianAt src quote j0 then j0 + 2 else j0
+
+/-- The `'`-string validity check (`Unescape` ok, multi-byte needs a suffix). -/
+def sqCheck (src : ByteArray) (quote : UInt8) (i j : Nat) (hasEndian : Bool) : Option Err :=
+  if quote == 39 then
+    match unescapeLen (slice src i j).toArray with
+    | none => some .sqinvalid
+    | some n => if n > 1 && !hasEndian then some .sqmulti else none
+  else none
+
+/-- `"…"` and `'…'` literals (`c` is the quote at `src[i]`). -/
+def stepString (src : ByteArray) (c : UInt8) (i : Nat) (st : St) : Except Err (Nat × St) :=
+  match scanString src c (i + 1) with
+  | .error e => .error e
+  | .ok j0 =>
+    if stringEnd src c j0 - i > maxTokenSize then .error .strlong
+    else
+      match sqCheck src c i (stringEnd src c j0) (hasEndianAt src c j0) with
+      | some e => .error e
+      | none => emit src i (stringEnd src c j0) st
+
+def stepIdent (src : ByteArray) (i : Nat) (st : St) : Except Err (Nat × St) :=
+  match scanWhile src alphaNumeric i (i + 1) with
+  | none => .error .identlong
+  | some j => emit src i j st
+
+/-- Radix prefix of a numeric literal: where the digits start and which bytes are digits. -/
+def numberPrefix (src : ByteArray) (c : UInt8) (i : Nat) : Except Err (Nat × (UInt8 → Bool)) :=
+  let j1 := i + 1
+  if c == 48 && j1 < src.size then
+    let next := src.get! j1
+    if next == 120 || next == 88 then .ok (j1 + 1, hexaNumericUnderscore)
+    else if next == 98 || next == 66 then .ok (j1 + 1, zeroOneUnderscore)
+    else if numeric next then .error .octal
+    else .ok (j1, numericUnderscore)
+  else .ok (j1, numericUnderscore)
+
+def stepNumber (src : ByteArray) (c : UInt8) (i : Nat) (st : St) : Except Err (Nat × St) :=
+  match numberPrefix src c i with
+  | .error e => .error e
+  | .ok (j0, isDigit) =>
+    match scanWhile src isDigit i j0 with
+    | none => .error .constlong
+    | some j =>
+      if !checkNumericUnderscores (slice src i j) then .error .numeric
+      else emit src i j st
+
+def stepComment (src : ByteArray) (i : Nat) (st : St) : Except Err (Nat × St) :=
+  let j := scanToNewline src (i + 2)
+  let cs := (padComments st.comments st.line).push (latin1 (slice src i j))
+  .ok (j, { st with comments := cs })
+
+def stepSquiggle (src : ByteArray) (c : UInt8) (i : Nat) (st : St) : Except Err (Nat × St) :=
+  let sq := squigglesArr.getD c.toNat 0
+  if sq != 0 then .ok (i + 1, { st with toks := st.toks.push ⟨sq, st.line⟩ })
+  else
+    match (lexersArr.getD c.toNat []).find? (fun x => hasPrefixAt src (i + 1) x.1) with
+    | some x => .ok (i + 1 + x.1.length, { st with toks := st.toks.push ⟨x.2, st.line⟩ })
+    | none => .error .unrecognized
+
+/-- One iteration of the `Tokenize` loop at `i < src.size`: the new index and state. -/
+def step (src : ByteArray) (i : Nat) (st : St) : Except Err (Nat × St) :=
+  let c := src.get! i
+  if c ≤ 32 then stepSpace c i st
+  else if c == 34 || c == 39 then stepString src c i st
+  else if alpha c then stepIdent src i st
+  else if numeric c then stepNumber src c i st
+  else if c == 47 && i + 1 < src.size && src.get! (i + 1) == 47 then stepComment src i st
+  else stepSquiggle src c i st
+
+/-- The error together with the line it is reported at. -/
+structure Failure where
+  err : Err
+  line : Nat
+  deriving Repr, DecidableEq, Inhabited
+
+def loop (src : ByteArray) (i : Nat) (st : St) : Except Failure St :=
+  if _h : i < src.size then
+    match step src i st with
+    | .error e => .error ⟨e, st.line⟩
+    | .ok (j, st') =>
+      if i < j then loop src j { st' with iters := st'.iters + 1 } else .error ⟨.stuck, st.line⟩
+  else .ok st
+termination_by src.size - i
+decreasing_by omega
+
+/-- `token.Tokenize(m, filename, src)` with a fresh map. -/
+def tokenize (src : ByteArray) : Except Failure St := loop src 0 {}
 
 end WuffsVerif.Token
